@@ -7,7 +7,9 @@
    same rows of every column, is property C07. *)
 From Coq Require Import String.
 From Coq Require Import List Arith Permutation.
-From PF Require Import Lib.ListX Lib.Chunks Model.Loader Proofs.LoaderProofs Model.LoaderCall Proofs.LoaderCallProofs.
+From Coq Require Import ZArith.
+From PF Require Import Lib.ListX Lib.Chunks Model.Loader Proofs.LoaderProofs Model.LoaderCall Proofs.LoaderCallProofs
+                       Model.LoaderFetch Proofs.LoaderFetchProofs.
 Import ListNotations.
 
 Section C10.
@@ -239,4 +241,52 @@ Example c10_ex_call_level :
     [("collate_fn"%string, PCollate 0); ("collate_fn"%string, PCollate 7)] = None /\
   (* torch alone rejects shuffle over an empty source; the loader's rewrite is what makes it work *)
   torch_loader_init (@nil nat) 0 [("shuffle"%string, PBool true); ("collate_fn"%string, PCollate 0)] [] = None.
+Proof. vm_compute. auto. Qed.
+
+(* --- the FETCH step (Model/LoaderFetch.v): torch's _MapDatasetFetcher looks every sampled index up in
+   the loader's dataset `range(len(source))` before DataLoader.collate_fn sees it.  Sampler indices are
+   integers; what reaches tensor_frame[...] are positions. --- *)
+
+(* range(n)[i]: 0 <= i < n is position i, -n <= i < 0 is position i + n, everything else raises *)
+Theorem c10_fetch_range_getitem : forall n i,
+  (forall p, range_getitem n i = Some p <->
+     ((0 <= i < Z.of_nat n)%Z /\ p = Z.to_nat i) \/ ((- Z.of_nat n <= i < 0)%Z /\ p = Z.to_nat (i + Z.of_nat n))) /\
+  (range_getitem n i = None <-> (Z.of_nat n <= i)%Z \/ (i < - Z.of_nat n)%Z).
+Proof. intros n i. split; [intro p; apply range_getitem_some | apply range_getitem_none]. Qed.
+
+(* a row index outside [-n, n) anywhere in the epoch raises: it is never wrapped around or clamped
+   (whatever the sampling, batch size, drop_last) *)
+Theorem c10_fetch_out_of_range_raises : forall {R} (tf : list R) n bs s drop b i,
+  In b (z_index_batches n bs s drop) -> In i b ->
+  (Z.of_nat n <= i \/ i < - Z.of_nat n)%Z ->
+  fetch_epoch tf n bs s drop = None.
+Proof. intros R. exact (@fetch_out_of_range R). Qed.
+
+(* all indices in range: the epoch never raises and every batch is exactly the selection of the rows
+   its indices denote (negative ones counted from the end), in the order given *)
+Theorem c10_fetch_in_range_selects : forall {R} (tf : list R) d bs s drop,
+  Forall (Forall (fun i => (- Z.of_nat (length tf) <= i < Z.of_nat (length tf))%Z))
+         (z_index_batches (length tf) bs s drop) ->
+  fetch_epoch tf (length tf) bs s drop =
+  Some (map (map (zrow tf d)) (z_index_batches (length tf) bs s drop)).
+Proof. intros R. exact (@fetch_epoch_in_range R). Qed.
+
+(* for the non-negative indices of Model/Loader.v the fetch step is invisible: the epoch with the fetch
+   step IS loader_epoch, so every theorem above about loader_epoch holds with the fetch step in place *)
+Theorem c10_fetch_agrees_with_row_selection : forall {R} (ld : loader R),
+  ld_n ld = length (ld_tensor_frame ld) ->
+  fetch_epoch (ld_tensor_frame ld) (ld_n ld) (ld_batch_size ld) (lift_sampling (ld_sampling ld)) (ld_drop_last ld)
+  = loader_epoch ld.
+Proof. intros R. exact (@fetch_epoch_nat R). Qed.
+
+Print Assumptions c10_fetch_range_getitem.
+Print Assumptions c10_fetch_out_of_range_raises.
+Print Assumptions c10_fetch_in_range_selects.
+Print Assumptions c10_fetch_agrees_with_row_selection.
+
+Example c10_ex_fetch :
+  c10_fetch_run [10; 11; 12] 2 (ZSampler [(-1)%Z; 0%Z; (-3)%Z]) false = Some [[12; 10]; [10]] /\
+  c10_fetch_run [10; 11; 12] 2 (ZSampler [0%Z; 3%Z]) false = None /\
+  c10_fetch_run [10; 11; 12] 2 (ZSampler [0%Z; (-4)%Z]) false = None /\
+  c10_fetch_run [10; 11; 12] 2 (ZSampler [0%Z; 1%Z; 3%Z]) true = Some [[10; 11]].
 Proof. vm_compute. auto. Qed.
